@@ -117,7 +117,10 @@ Qed.
 Lemma levels_direct o v : is_tx o = false -> levels (snd (sstep o (mk_sstate v []))) = [].
 Proof.
   intro NT. destruct o; try discriminate; cbn;
-    repeat match goal with |- context [let '(_, _) := ?e in _] => destruct e as [[[? ?] ?] ?] end;
+    repeat match goal with
+           | |- context [if covers_child_keys ?p then _ else _] => destruct (covers_child_keys p)
+           | |- context [let '(_, _) := ?e in _] => destruct e as [[[? ?] ?] ?]
+           end;
     reflexivity.
 Qed.
 
@@ -135,7 +138,10 @@ Proof.
       rewrite E in H. injection H as <-. split.
       * unfold vstep. rewrite (levels_direct o bk TX). reflexivity.
       * destruct o; try discriminate; cbn;
-          repeat match goal with |- context [let '(_, _) := ?e in _] => destruct e as [[[? ?] ?] ?] end;
+          repeat match goal with
+                 | |- context [if covers_child_keys ?p then _ else _] => destruct (covers_child_keys p)
+                 | |- context [let '(_, _) := ?e in _] => destruct e as [[[? ?] ?] ?]
+                 end;
           discriminate.
   - (* inside a transaction *)
     pose proof R as [Dw Cm Cn Wt Cc].
@@ -153,6 +159,7 @@ Proof.
              touch_main touch_child touched_child om_get];
         try (split; [reflexivity | discriminate]).
       * (* ClearPrefix *)
+        destruct (covers_child_keys p); [cbn; split; [reflexivity | discriminate]|].
         destruct (spec_clear (c_main (view l)) (c_main bk) (t_main l) p None) as [[[m1 t1] l1] a1] eqn:E1.
         destruct (spec_clear (c_main (view l)) (c_main (view l)) [] p None) as [[[m2 t2] l2] a2] eqn:E2.
         cbn. rewrite M in E1. rewrite (spec_clear_view_indep _ _ _ _ _ _ _ _ _ _ _ _ _ _ Cm E1 E2).
